@@ -120,8 +120,11 @@ func (c20) build(src *gen.Source) *Case {
 		case 3:
 			op = Op{Op: "get", Name: anyName()}
 		case 4:
-			if src.Chance(1, 2) {
+			if src.Chance(1, 3) {
 				op = Op{Op: "walk"}
+			} else if src.Chance(1, 2) {
+				// a Walk whose callback changes the store: entries must be live when they are reported
+				op = Op{Op: "walkmut", Name: src.Pick(c20Ordinary), Value: src.Pick(c20Ordinary)}
 			} else {
 				op = Op{Op: "parse", Value: src.Pick([]string{"ll a; b\n", "ll\n", "x=1 ll $x ${y:=2}\n", "ll | ll && $((z=3))\n", "alias ll=x\n"})}
 			}
@@ -141,7 +144,7 @@ func (c20) build(src *gen.Source) *Case {
 			tmpl = strings.ReplaceAll(tmpl, "P", src.Pick([]string{"*", "p*", "?", "1", "a*", "*3", "z"}))
 			if src.Chance(1, 6) {
 				// expansions that consult HOME / IFS or nest an arithmetic assignment in the operator word
-				tmpl = src.Pick([]string{"~", "~/x", "a:~:b", "$N", "x$N", "${N:=$((_y1=7))}", "${N:-$((X=3))}", "${N:+$((X=4))}", "${N%$((_y1=_y1+1))}", "${N##$((_y1=_y1+1))}"})
+				tmpl = src.Pick([]string{"~", "~/x", "a:~:b", "$N", "x$N", "${N:=${IFS:=:}\"$@\"}", "${N:=$((_y1=7))}", "${N:-$((X=3))}", "${N:+$((X=4))}", "${N%$((_y1=_y1+1))}", "${N##$((_y1=_y1+1))}"})
 			}
 			nm := anyName()
 			if nm == "" {
@@ -435,6 +438,26 @@ func (p c20) Run(t *testing.T, c *Case, s Sched, keepLog bool) *Obs {
 				}
 			case "walk":
 				// compared below on every step anyway
+			case "walkmut":
+				first := true
+				env.Walk(func(v interp.Var) {
+					if first {
+						// the entry being visited when the store is changed is exempt
+						first = false
+						env.Unset(op.Name)
+						env.Set(op.Value, "wm")
+						return
+					}
+					if cur, set := env.Get(v.Name); !set || cur.Value != v.Value {
+						add("walk-reports-dead-entry", fmt.Sprintf("%s: Walk reported %s=%q, but at that moment Get says (%q, %v)", desc, v.Name, v.Value, cur.Value, set))
+					}
+				})
+				if !first {
+					// the callback ran (the store was not empty): its two changes are part of the history
+					delete(m.vars, op.Name)
+					m.vars[op.Value] = "wm"
+					live.Muts++
+				}
 			case "parse":
 				// parsing with this environment (alias substitution) must not change it
 				sim.Yield(gosim.PCallerMark)
@@ -551,6 +574,27 @@ func (p c20) Run(t *testing.T, c *Case, s Sched, keepLog bool) *Obs {
 					}
 				}
 				switch {
+				case strings.Contains(op.Value, ":=${IFS:=:}"):
+					// the word assigns IFS (when unset or null) and yields one field per positional parameter; what is
+					// substituted is the value that was assigned
+					need := !set || null
+					switch {
+					case !need:
+					case isSpecial(op.Name) || isPositional(op.Name):
+						if err == nil {
+							add("assigned-special", fmt.Sprintf("%s: assigning a special/positional parameter did not fail", desc))
+						}
+					case err == nil:
+						if v, ok := m.vars["IFS"]; !ok || v == "" {
+							m.vars["IFS"] = ":"
+						}
+						stored, _ := env.Get(op.Name)
+						if op.Mode == uint(interp.Literal) && (len(fields) != 1 || fields[0] != stored.Value) {
+							add("assigned-value-differs-from-expansion", fmt.Sprintf("%s: substituted %q but stored %q", desc, fields, stored.Value))
+						}
+						m.vars[op.Name] = stored.Value
+						live.Assigns++
+					}
 				case strings.Contains(inner, "$((_y1=_y1+1))"):
 					// the pattern word is expanded (once) when the parameter is set and not null
 					if cur, ok := cleanInt(m.vars["_y1"]); ok && set && !null && err == nil {
